@@ -282,6 +282,9 @@ __CPROVER_requires(XV_LIVE_OK(xv_ctx_live) && XV_LIVE_OK(xv_ctxfree_calls) && XV
 __CPROVER_assigns(xv_errno, XV_CX_ASSIGNS, XV_LSC_ASSIGNS)
 /* PO[C18] load_ssl_ctx.null_means_eproto */
 __CPROVER_ensures(__CPROVER_return_value == NULL ==> xv_errno == EPROTO)
+/* PO[C18] load_ssl_ctx.malformed_material_is_refused: a PEM object (leaf or chain certificate, key, trusted CA, CRL) that is present but does not parse
+ * never yields a context (with null_means_eproto: EPROTO), whatever older entries its decoder left in the error queue */
+__CPROVER_ensures((xv_pem_malformed && !__CPROVER_old(xv_pem_malformed)) ==> __CPROVER_return_value == NULL)
 /* PO[C08] load_ssl_ctx.failure_leaks_no_context */
 __CPROVER_ensures(__CPROVER_return_value == NULL ==> (xv_ctx_live == __CPROVER_old(xv_ctx_live) && (xv_ctx_dead == __CPROVER_old(xv_ctx_dead) || __CPROVER_is_fresh(xv_ctx_dead, 1))))
 __CPROVER_ensures(__CPROVER_return_value != NULL ==> (__CPROVER_is_fresh(__CPROVER_return_value, 1) && xv_ctx_live == __CPROVER_old(xv_ctx_live) + 1 && \
